@@ -41,7 +41,7 @@ var libDoc = map[string]string{
 	"strconv.Unquote":    "uninterpreted; error unconstrained",
 	"regexp":             "MustCompile(constant).FindString/FindStringSubmatch/MatchString uninterpreted per pattern with shape axioms: FindString result is a prefix of the subject for ^-anchored patterns; submatch result nil or of length 1+groups with [0] a prefix",
 	"os/filepath":        "os.Stat, os.ReadFile, os.Executable, os.WriteFile, filepath.* uninterpreted (fresh results, errors unconstrained)",
-	"crypto/sha256":      "uninterpreted; Sprintf(%x, Sum) has length 64",
+	"crypto/sha256":      "uninterpreted; a hash made by sha256.New has digest size 32, Sum(b) is len(b) + digest size long, Sprintf(%x, bytes) is twice as long as the bytes",
 	"unicode.IsUpper":    "for code points < 128: 'A' <= r <= 'Z'; otherwise unconstrained",
 }
 
@@ -208,6 +208,11 @@ func (x *Exec) libCall(st *State, fn *ssa.Function, args []Value, pos token.Pos,
 			if rt, ok := res[0].(*Term); ok {
 				st.assume(App("str.suffixof", "Bool", rt, T(0)))
 				st.assume(App("str.suffixof", "Bool", rt, App("filepath_base", "String", T(0))))
+			}
+		}
+		if name == "crypto/sha256.New" && len(res) == 1 {
+			if rt, ok := res[0].(*Term); ok && rt.Sort == "Opaque" {
+				st.assume(Eq(App("hash_size", "Int", rt), IntT(32))) // sha256.Size
 			}
 		}
 		if name == "path/filepath.Base" && len(res) == 1 {
